@@ -33,7 +33,10 @@ From BHW Require Import Lib.Base Lib.ListAux Py.Interp.
 #[global] Arguments find_from : simpl never.
 #[global] Arguments rfind_from : simpl never.
 
+Ltac is_Zlit z := lazymatch z with Z0 => idtac | Zpos _ => idtac | Zneg _ => idtac end.
+(* ranges with literal bounds are materialised; symbolic ones are left folded for a lemma *)
 Ltac eval_ranges := repeat match goal with |- context [range_list ?a ?b ?c] =>
+   is_Zlit a; is_Zlit b; is_Zlit c;
    let r := eval vm_compute in (range_list a b c) in change (range_list a b c) with r end.
 
 Lemma if_Val {A} (b : bool) (x y : A) : (if b then Val x else Val y) = Val (if b then x else y).
